@@ -6,6 +6,7 @@
   values for `i < 6n - fill` and 0 for every other `i`.
 -/
 import AisVerif.Lemmas.Unarmor
+import AisVerif.Lemmas.Armor
 
 namespace AisVerif.C03
 open AisVerif Spec
@@ -63,6 +64,31 @@ theorem alphabet : ∀ c : Fin 256,
     Spec.sixbit (UInt8.ofNat c.val) =
       (if 48 ≤ c.val ∧ c.val ≤ 87 then some (c.val - 48) else if 96 ≤ c.val ∧ c.val ≤ 119 then some (c.val - 56) else none) := by
   decide +kernel
+
+/-! ### The inverse direction: armoring, and the round trip -/
+
+/-- **Every bit string** (the first `nbits` bits of any byte string): unarmoring its armoring gives back
+    exactly those bits, zero everywhere else, in ⌈6·chars/8⌉ bytes. -/
+theorem unarmor_of_armor (cfg : Cfg) (bs : List UInt8) (nbits : Nat)
+    (hsz : ¬ TooLarge cfg ((nbits + 5) / 6)) :
+    ∃ out, unarmor cfg (Spec.armor bs nbits).1 (Spec.armor bs nbits).2 = ok out ∧
+      out.length = Spec.unarmorLen ((nbits + 5) / 6) ∧
+      ∀ i, Spec.bit out i = if i < nbits then Spec.bit bs i else 0 :=
+  unarmor_armor cfg bs nbits hsz
+
+/-- **Every byte string** round-trips, up to the single zero byte that appears when `6·chars` crosses a
+    byte boundary (`pad ≤ 1`, `unarmor_pad_le_one`). -/
+theorem armor_roundtrip (cfg : Cfg) (bs : List UInt8)
+    (hsz : ¬ TooLarge cfg ((8 * bs.length + 5) / 6)) :
+    unarmor cfg (Spec.armor bs (8 * bs.length)).1 (Spec.armor bs (8 * bs.length)).2 =
+      ok (bs ++ List.replicate (Spec.unarmorLen ((8 * bs.length + 5) / 6) - bs.length) 0) ∧
+    Spec.unarmorLen ((8 * bs.length + 5) / 6) - bs.length ≤ 1 :=
+  ⟨unarmor_armor_padded cfg bs hsz, unarmor_pad_le_one bs.length⟩
+
+/-- Armoring only produces characters of the alphabet, and a fill count of 0-5. -/
+theorem armor_wellformed (bs : List UInt8) (nbits : Nat) :
+    AllArmored (Spec.armor bs nbits).1 ∧ (Spec.armor bs nbits).2 ≤ 5 ∧ (Spec.armor bs nbits).1.length = (nbits + 5) / 6 :=
+  ⟨armor_allArmored bs nbits, armor_fill_le bs nbits, armor_length bs nbits⟩
 
 /-- Non-vacuity: the crate's unit-test vectors satisfy the specification. -/
 example : unarmor .std [0x39] 0 = ok [0b00100100] := by rfl
